@@ -270,7 +270,9 @@ def main():
     src = SRC.read_text()
     try:
         mod = ast.parse(src)
-        fn = next(n for n in mod.body if isinstance(n, ast.FunctionDef) and n.name == "ws2d")
+        fn = [n for n in mod.body if isinstance(n, ast.FunctionDef) and n.name == "ws2d"][-1]       # a later def shadows an earlier one
+        if [a.arg for a in fn.args.args] != ["y", "lmda", "w"] or fn.args.defaults or fn.args.vararg or fn.args.kwarg or fn.args.kwonlyargs:
+            raise Unsupported("signature changed: def ws2d(" + ast.unparse(fn.args) + "), expected (y, lmda, w)")
         t = T(fn)
         body = t.run()
     except (Unsupported, StopIteration, KeyError, IndexError, AttributeError) as e:
